@@ -451,6 +451,23 @@ fn build_mutants(c: &mut Case, tg: &Tgt, fam: &str, v: &Valid, second: Option<&[
     out
 }
 
+/// `containers` family (FSE targets): parallel containers with an internally consistent size table (count in 2..=64, sizes
+/// non-zero, sum == rest) whose blocks are degenerate: 1..8-byte blocks, one valid single stream next to tiny ones, a valid
+/// stream split at every early offset. Kept apart from `directed` so that the known allocation aborts there cannot mask it.
+fn containers(id: &str, big: &[u8], r: &mut Rng) -> Vec<Vec<u8>> {
+    let mut out: Vec<Vec<u8>> = Vec::new(); if !(id.starts_with("fse_decompress") || id.starts_with("remove_fse")) { return out; }
+    let le32 = |x: u32| x.to_le_bytes().to_vec(); let cat = |parts: &[&[u8]]| parts.concat();
+    let pre: &[u8] = if id.starts_with("remove_fse") { &[0xFE, 0x53] } else { &[] };
+        // parallel container with an internally consistent size table (count in 2..=64, sizes non-zero, sum == rest) whose blocks are
+        // degenerate: 1..8-byte blocks, one valid single stream next to tiny ones, a valid stream split at every early offset
+        for n in [2usize, 3, 7, 64] { for pat in 0..6u32 {
+            let sizes: Vec<usize> = (0..n).map(|i| match pat { 0 => 1, 1 => 3, 2 => 1 + i % 8, 3 => if i == 0 { big.len().max(1) } else { 1 + i % 4 }, 4 => if i + 1 == n { big.len().max(1) } else { 2 + i % 5 }, _ => 1 + r.usize_below(9) }).collect();
+            let mut b = pre.to_vec(); b.extend_from_slice(&le32(n as u32)); for &sz in &sizes { b.extend_from_slice(&le32(sz as u32)); }
+            for (i, &sz) in sizes.iter().enumerate() { if sz == big.len() && !big.is_empty() && ((pat == 3 && i == 0) || (pat == 4 && i + 1 == n)) { b.extend_from_slice(big); } else { let mut blk = r.bytes(sz); if r.bool() && sz >= 1 { blk[0] = big.first().copied().unwrap_or(0); } b.extend_from_slice(&blk); } }
+            out.push(b); } }
+        for cut in 1..big.len().min(12) { out.push(cat(&[pre, &le32(2), &le32(cut as u32), &le32((big.len() - cut) as u32), big])); }
+    out
+}
 /// Property-specific directed inputs (PROPERTY.json "why_tests_cant"): length prefixes that pass the first bounds check but
 /// drive a huge allocation or an index computation later, headers that declare more sections than the input holds,
 /// back-references / run lengths far larger than the input, bit streams that end in the middle of a code.
@@ -514,7 +531,16 @@ fn u32at(b: &[u8], o: usize) -> Option<u32> { b.get(o..o + 4).map(|x| u32::from_
 fn u64at(b: &[u8], o: usize) -> Option<u64> { b.get(o..o + 8).map(|x| { let mut a = [0u8; 8]; a.copy_from_slice(x); u64::from_le_bytes(a) }) }
 fn leb(b: &[u8]) -> Option<(u64, usize)> { let mut v = 0u64; for (i, &x) in b.iter().enumerate().take(10) { v |= ((x & 0x7f) as u64) << (7 * i as u32).min(63); if x & 0x80 == 0 { return Some((v, i + 1)); } } None }
 const HUGE: u64 = 64 << 20;
+/// mirrors FseDecoder::decompress: a block container (u32 n in 2..=64, n non-zero u32 sizes summing to the rest) is
+/// decoded block by block with decompress_single, so the single-stream predicates apply to every block
 fn fse_tags(b: &[u8], out: &mut BTreeSet<&'static str>) {
+    if let Some(n) = u32at(b, 0) { let n = n as usize; if (2..=64).contains(&n) && b.len() >= 8 && b.len() >= 4 + 4 * n {
+        let sizes: Vec<usize> = (0..n).map(|i| u32at(b, 4 + 4 * i).unwrap_or(0) as usize).collect();
+        if sizes.iter().all(|&s| s != 0 && s <= b.len()) && 4 + 4 * n + sizes.iter().sum::<usize>() == b.len() {
+            let mut pos = 4 + 4 * n; for s in sizes { fse_tags_single(&b[pos..pos + s], out); pos += s; } return; } } }
+    fse_tags_single(b, out)
+}
+fn fse_tags_single(b: &[u8], out: &mut BTreeSet<&'static str>) {
     let Some(orig) = u32at(b, 0) else { return }; if orig == 0 || b.len() < 7 { return; } let tl = b[4]; if !(5..=15).contains(&tl) { return; }
     let ns = u16::from_le_bytes([b[5], b[6]]) as usize; let mut f = [0u64; 256]; let mut pos = 7; for _ in 0..ns { if pos + 5 > b.len() { return; } f[b[pos] as usize] = u32at(b, pos + 1).unwrap_or(0) as u64; pos += 5; }
     let sum: u64 = f.iter().sum(); if sum > u32::MAX as u64 { out.insert("fse_freq_sum_overflow"); } else if sum >= 1 << 31 { out.insert("fse_total_freq_ge_2_31"); }
@@ -740,6 +766,8 @@ fn run_family(c: &mut Case, tg: &Tgt, fam: &str, idx: u64, size: usize, cap: usi
                 let x = if tg.explen { *c.rng.pick(&[0usize, 1, 7, 64, len, len * 2, 4096]) } else { 0 }; c.hash_more(&b); out.push(Mutant { mu: Mu::Replace(b), explen: x }); }
             out
         }
+        "containers" => { let big = catch(|| { let mut r = c.rng.fork(); mk(&mut r, 600.min(tg.max_size)) }).ok().and_then(|r| r.ok()).map(|s| s.bytes).unwrap_or_default();
+            let mut out = vec![Mutant { mu: Mu::Id, explen: v.explen }]; for b in containers(tg.id, &big, &mut c.rng) { c.hash_more(&b); out.push(Mutant { mu: Mu::Replace(b), explen: v.explen }); } out }
         "directed" => { let big = catch(|| { let mut r = c.rng.fork(); mk(&mut r, 600.min(tg.max_size)) }).ok().and_then(|r| r.ok()).map(|s| s.bytes).unwrap_or_default();
             let mut out = vec![Mutant { mu: Mu::Id, explen: v.explen }]; for b in directed(tg.id, &big, &mut c.rng) { c.hash_more(&b); out.push(Mutant { mu: Mu::Replace(b), explen: v.explen }); } out }
         "huge_trunc" | "huge_field" => { c.note("huge_valid_len", v.bytes.len() as u64); build_huge_mutants(c, tg, fam, &v, cap) }
@@ -791,6 +819,7 @@ pub fn run(ctx: &mut Ctx) {
             for fam in &fams { ctx.case(tg.id, fam, idx, |c| run_family(c, tg, fam, idx, size, cap, max_deaths, asan)); }
         }
         ctx.case(tg.id, "directed", 0, |c| run_family(c, tg, "directed", 0, 24, cap, max_deaths * 4, asan));
+        if tg.id.starts_with("fse_decompress") || tg.id.starts_with("remove_fse") { for idx in 0..ctx.n(2, 12) as u64 { ctx.case(tg.id, "containers", idx, |c| run_family(c, tg, "containers", idx, 24, cap, max_deaths * 4, asan)); } }
         for idx in 0..=small_chunks as u64 { ctx.case(tg.id, "small", idx, |c| run_family(c, tg, "small", idx, 24, cap.min(1024), max_deaths, asan)); }
         for idx in 0..n_rand as u64 { ctx.case(tg.id, "rand", idx, |c| run_family(c, tg, "rand", idx, 40, cap, max_deaths, asan)); }
         // large inputs: valid encodings of > 64 KiB payloads / > 65536 elements (sizes rotate with target and index; shape is seeded per case)
